@@ -37,6 +37,8 @@ def cases(tier, seed):
     for k in ALLKEYS[:-1] + ['ecdh_p256_0+kdf10.9', 'ecdh_p384_0+kdf8.7', 'cv25519_0+kdf10.9', 'ecdh_k256_0+kdf9.8', 'ecdh_p521_0+kdf8.8']:
         cs.append({'t': 'forms', 'key': k})
     cs.append({'t': 'leading_zero', 'seed': seed, 'n': 40 if tier == 'quick' else 1000})
+    for alg in (2, 3):
+        cs.append({'t': 'deprecated_rsa', 'alg': alg})
     for k in ('ed25519_0', 'rsa1024_0', 'ecdsa_p256_0'):
         for wh in ('keyid', 'fpr', 'shortid'):
             cs.append({'t': 'zero_ids', 'key': k, 'where': wh})
@@ -158,7 +160,8 @@ def _leading_zero(ctx, d, pgpy):
         t = r.choice(TIMES + [r.randrange(1 << 32)])
         if kind == 'rsa':
             bits = r.choice([1017, 1020, 1024, 2041, 2047])
-            m = {'alg': 1, 'created': t, 'n': r.getrandbits(bits) | (1 << (bits - 1)) | 1, 'e': r.choice([3, 17, 65537, 5])}
+            # the deprecated RSA identifiers 2 (encrypt only) and 3 (sign only) are part of the hashed body like any other
+            m = {'alg': r.choice([1, 1, 2, 3]), 'created': t, 'n': r.getrandbits(bits) | (1 << (bits - 1)) | 1, 'e': r.choice([3, 17, 65537, 5])}
         elif kind == 'dsa':
             m = {'alg': 17, 'created': t, 'p': r.getrandbits(1024) | (1 << 1023), 'q': r.getrandbits(160) | (1 << 159), 'g': r.getrandbits(r.choice([3, 500, 1019])) | 1,
                  'y': r.getrandbits(r.choice([1, 9, 1000, 1017])) | 1}
@@ -190,6 +193,37 @@ def _leading_zero(ctx, d, pgpy):
         out = bytes(k)
         if out != raw:
             ctx.fail('public-key-reexport-differs', {'kind': kind, 'raw': hx(raw[:60]), 'out': hx(out[:60])})
+    ctx.nontrivial(d)
+
+
+def _deprecated_rsa(ctx, d, pgpy):
+    """a real RSA key written by another encoder under the deprecated identifier 2 or 3, public and secret, primary and subkey"""
+    pm = dict(pool.mat('rsa1024_0'), alg=d['alg'])
+    sm = dict(pool.mat('rsa1024_1'), alg=d['alg'])
+    for secret in (False, True):
+        body = RK.sec_body(pm) if secret else RK.pub_body(pm)
+        sbody = RK.sec_body(sm) if secret else RK.pub_body(sm)
+        raw = wire.new_hdr(5 if secret else 6, len(body)) + body
+        sraw = wire.new_hdr(7 if secret else 14, len(sbody)) + sbody
+        ctx.count('leading_zero_keys')
+        for blob, exp, label in ((raw, fpr_hex(RK.pub_body(pm)), 'primary'), (raw + sraw, fpr_hex(RK.pub_body(sm)), 'subkey')):
+            try:
+                k = pgpy.PGPKey.from_blob(blob)[0]
+            except Exception as e:
+                ctx.fail('well-formed-public-key-rejected', {'kind': 'rsa alg %d' % d['alg'], 'secret': secret, 'err': repr(e)[:200]})
+                continue
+            obj = k if label == 'primary' else (list(k.subkeys.values())[0] if k.subkeys else None)
+            if obj is None:
+                ctx.observe('subkey_without_binding_not_attached')
+                continue
+            where = {'kind': 'rsa alg %d' % d['alg'], 'secret': secret, 'component': label}
+            check_fpr(ctx, obj, exp, where)
+            for form, o2 in (('copy', __import__('copy').copy(k)), ('reimported', pgpy.PGPKey.from_blob(bytes(k))[0])) + ((('twin', k.pubkey),) if secret else ()):
+                oo = o2 if label == 'primary' else (list(o2.subkeys.values())[0] if o2.subkeys else None)
+                if oo is not None:
+                    check_fpr(ctx, oo, exp, dict(where, form=form))
+            if label == 'primary' and bytes(k) != blob:
+                ctx.fail('public-key-reexport-differs', {'kind': 'rsa alg %d' % d['alg'], 'secret': secret, 'raw': hx(blob[:20]), 'out': hx(bytes(k)[:20])})
     ctx.nontrivial(d)
 
 
